@@ -132,19 +132,24 @@ pub struct Ctx {
 /// measured: wall seconds of the unboosted quick tier on 16 idle cores -> multiplier
 fn quick_boost(prop: &str) -> f64 {
     match prop {
+        "C01" => 2.0,
         "C02" => 10.0,
-        "C05" => 5.0,
-        "C08" => 12.0,
-        "C09" => 5.0,
-        "C10" => 3.0,
-        "C11" => 6.0,
-        "C12" => 4.0,
-        "C13" => 10.0,
-        "C15" => 6.0,
-        "C16" => 4.0,
-        "C17" => 8.0,
-        "C18" => 8.0,
-        "C04" => 2.0,
+        "C03" => 12.0,
+        "C04" => 5.0,
+        "C05" => 8.0,
+        "C06" => 8.0,
+        "C07" => 7.0,
+        "C08" => 24.0,
+        "C09" => 8.0,
+        "C10" => 9.0,
+        "C11" => 18.0,
+        "C12" => 12.0,
+        "C13" => 30.0,
+        "C14" => 1.5,
+        "C15" => 15.0,
+        "C16" => 10.0,
+        "C17" => 24.0,
+        "C18" => 14.0,
         _ => 1.0,
     }
 }
